@@ -79,7 +79,7 @@ def segTok (s : List Char) : Option Tok :=
 /-- `("_" ~ body)*` inside one run of word characters.  `next` is the text behind the run: a run that ends
 in `_` goes on with `{`; an integer segment followed by `.digit` would be a `float` body (an error of the AST
 builder that is not modelled). -/
-def tailToks : List (List Char) → List Char → Option (List Tok)
+def compoundTail : List (List Char) → List Char → Option (List Tok)
   | [], _ => some []
   | [[]], next =>
     match next with
@@ -91,7 +91,7 @@ def tailToks : List (List Char) → List Char → Option (List Tok)
     | some t, _ => some [.us, t]
     | none, _ => none
   | s :: ss, next =>
-    match segTok s, tailToks ss next with
+    match segTok s, compoundTail ss next with
     | some t, some ts => some (.us :: t :: ts)
     | _, _ => none
 
@@ -188,7 +188,7 @@ def lexAux : Nat → List Char → Bool → List Tok → LexRes
           -- `compound_variable`: `base_seg_seg…`
           match splitRun run with
           | base :: segs =>
-            match tailToks segs r with
+            match compoundTail segs r with
             | some ts => lexAux fuel r true (ts.reverse ++ .word (String.ofList base) :: acc)
             | none => .unsupported
           | [] => .unsupported
@@ -205,7 +205,7 @@ def lexAux : Nat → List Char → Bool → List Tok → LexRes
           let (run, r) := spanWhile isWordChar rest
           match splitRun run with
           | [] :: segs =>
-            match tailToks segs r with
+            match compoundTail segs r with
             | some ts => lexAux fuel r true (ts.reverse ++ .rbrace :: acc)
             | none => .unsupported
           | _ => .unsupported
